@@ -57,6 +57,9 @@ def gen_world(rng, i, tier):
     w["init"] = rng.pick(["null", "sentinel"])
     w["fault_seed"] = rng.getrandbits(32)
     w["bad_options"] = rng.pick(["FOO=1", "JOIN_SAME_ENTRIES=2", "PARSING_DIRS=/a:/b;BAR", "CONFIG_DIRS=.d;ROOT_PREFIX=/x;python_style=1", "ROOT_PREFIX=/x;;", "JOIN_SAME_ENTRIES=1;PYTHON_STYLE=1;X"])
+    w["odd_options"] = rng.pick(["PARSING_DIRS=", "PARSING_DIRS=:", "CONFIG_DIRS=", "CONFIG_DIRS=:", "ROOT_PREFIX=", "PARSING_DIRS=$ROOT/a:", "PARSING_DIRS=:$ROOT/a", "PARSING_DIRS=$ROOT/a::$ROOT/b",
+                                 "JOIN_SAME_ENTRIES=1;JOIN_SAME_ENTRIES=1", "ROOT_PREFIX=$ROOT;ROOT_PREFIX=$ROOT/x", "CONFIG_DIRS=.d;PARSING_DIRS=$ROOT/a;PYTHON_STYLE=1", ";", "PARSING_DIRS=$ROOT/a;",
+                                 "PARSING_DIRS=$ROOT/a:$ROOT/b;PARSING_DIRS=$ROOT/c", "CONFIG_DIRS=.d:.x.d;CONFIG_DIRS=/conf.d", "PARSING_DIRS=$ROOT/a;CONFIG_DIRS=.d;PARSING_DIRS=$ROOT/b:$ROOT/c:$ROOT/d"])
     w["req_uid"], w["req_gid"] = 0, 0
     w["rules"] = []
     w["setter_history"] = "plain"
@@ -124,6 +127,11 @@ def layered_plan(world, fault, fill):
     ops.append({"op": "dump", "k": 5, "ext": False, "tag": "badopt_dump"})
     ops.append({"op": "free", "k": 5})
     ops.append({"op": "readFile", "o": 6, "path": "$ROOT/nosuch.conf", "delim": "=", "comment": "#", "init": world["init"], "tag": "missing"})
+    # an accepted but unusual option string, then a layered read through that object (nothing to find), then free
+    ops.append({"op": "newOpts", "o": 8, "options": world.get("odd_options", "PARSING_DIRS="), "tag": "oddopt"})
+    ops.append({"op": "readConfig", "in": 8, "o": 8, "project": "lesim-no-such-project", "usr_subdir": "/lesim-nonexistent", "name": "lesim-nothing", "suffix": "conf",
+                "delim": "=", "comment": "#", "need": ["in"], "tag": "oddread"})
+    ops.append({"op": "free", "k": 8})
     ops.append({"op": "readConfig", "in": None, "o": 7, "project": "lesim-no-such-project", "usr_subdir": "/lesim-nonexistent", "name": "nothing", "suffix": "conf",
                 "delim": "=", "comment": "#", "tag": "libobj"})
     ops.append({"op": "free", "k": 7})
